@@ -357,10 +357,21 @@ func evalClassDeclareStmt(vm *r.VM, node *syntax.ClassDeclareStmt) error {
 	}
 
 	// then add symbol to export value
-	if err := module.AddExportValue(className.GetLiteral(), classRef); err != nil {
-		return err
+	if isModuleLevel(vm) {
+		if err := module.AddExportValue(className.GetLiteral(), classRef); err != nil {
+			return err
+		}
 	}
 	return nil
+}
+
+// isModuleLevel - a definition is exported by its module only when it is written at the top
+// level of the module. One written inside a method body belongs to that call alone (the call's
+// scope holds it): entered in the module's export table it would outlive the call, and the next
+// call of the same method - a second call, a recursive one - would fail with 标识被重复定义.
+func isModuleLevel(vm *r.VM) bool {
+	frame := vm.GetCurrentCallFrame()
+	return frame == nil || frame.IsScriptCallFrame()
 }
 
 // 如何XX？
@@ -380,7 +391,7 @@ func evalFunctionDeclareStmt(vm *r.VM, node *syntax.FunctionDeclareStmt) error {
 	}
 
 	// then add symbol to export value
-	if module != nil {
+	if module != nil && isModuleLevel(vm) {
 		if err := module.AddExportValue(vtag.GetLiteral(), fn); err != nil {
 			return err
 		}
